@@ -122,8 +122,10 @@ def _prune(keep):
     except FileNotFoundError:
         return
     ents.sort(key=lambda p: os.path.getmtime(p), reverse=True)
+    now = time.time()
     for p in ents[6:]:
-        if p != keep:
+        # a directory touched in the last three hours may be in use by a check running concurrently against another tree
+        if p != keep and now - os.path.getmtime(p) > 3 * 3600:
             shutil.rmtree(p, ignore_errors=True)
 
 
